@@ -244,7 +244,7 @@ class Report:
         cov = dict(
             explanation=self.explanation,
             obligations=n_ob,
-            discharged=n_ok + len(listed) if self.level != "proof" else n_ok,
+            discharged=n_ok,
             evaluations=n_ob,
             distinct_nontrivial=distinct,
             rule="one evaluation = one rule instance on one construct of /repo's current source; "
